@@ -252,11 +252,11 @@ func (m firstFit) set(off, n int, v bool) {
 }
 
 type cuAlloc struct {
-	wfFree   [4]int
-	sreg     firstFit
-	vreg     [4]firstFit
-	lds      firstFit
-	nextSIMD int
+	wfFree    [4]int
+	sreg      firstFit
+	vreg      [4]firstFit
+	lds       firstFit
+	nextSIMD  int
 	unlimited bool // emulation CU: no limits, every wavefront on "SIMD 0"
 }
 
@@ -271,7 +271,7 @@ func newCUAlloc(unlimited bool) *cuAlloc {
 func units(amount, gran int) int { return (amount + gran - 1) / gran }
 
 type reservation struct {
-	locs              []protocol.WfDispatchLocation
+	locs             []protocol.WfDispatchLocation
 	sU, vU, lU, lOff int
 }
 
@@ -359,7 +359,7 @@ func (a *cuAlloc) free(r *reservation) {
 // fake dispatcher
 
 type dispConfig struct {
-	GapMax   int `json:"map_gap_max"`         // cycles between two MapWGReq (uniform 0..GapMax)
+	GapMax   int `json:"map_gap_max"`          // cycles between two MapWGReq (uniform 0..GapMax)
 	StallPct int `json:"completion_stall_pct"` // % of cycles in which completions are not retrieved
 	InBuf    int `json:"in_buf"`
 }
@@ -376,18 +376,18 @@ type wgRec struct {
 
 type fakeDisp struct {
 	*simkit.Agent
-	port     sim.Port
-	cu       sim.RemotePort
-	cfg      dispConfig
-	rng      *vlib.PRNG
-	alloc    *cuAlloc
-	wgs      []*wgRec
-	byReq    map[string]*wgRec
-	next     int
+	port      sim.Port
+	cu        sim.RemotePort
+	cfg       dispConfig
+	rng       *vlib.PRNG
+	alloc     *cuAlloc
+	wgs       []*wgRec
+	byReq     map[string]*wgRec
+	next      int
 	notBefore int64
-	unknown  []string // completion ids that match no MapWGReq
-	other    []string // messages that are not WGCompletionMsg
-	snap     func(w *wgRec) []uint32
+	unknown   []string // completion ids that match no MapWGReq
+	other     []string // messages that are not WGCompletionMsg
+	snap      func(w *wgRec) []uint32
 }
 
 func newFakeDisp(engine sim.Engine, freq sim.Freq, cfg dispConfig, rng *vlib.PRNG, alloc *cuAlloc) *fakeDisp {
@@ -602,7 +602,7 @@ func (r *recorder) StartTask(t tracing.Task) {
 	}
 }
 
-func (r *recorder) StepTask(tracing.Task)           {}
+func (r *recorder) StepTask(tracing.Task)          {}
 func (r *recorder) AddMilestone(tracing.Milestone) {}
 
 func (r *recorder) EndTask(t tracing.Task) {
